@@ -394,24 +394,31 @@ func checkFileAPIs(c *Ctx, rule string, f *FC) {
 	}
 	type site struct{ fn, api string }
 	var sites []site
-	scan := func(p *ir.Program) {
-		for _, fn := range p.Funcs {
-			ir.WalkFunc(fn, func(t ir.Term) bool {
-				if fr, ok := t.(*ir.FuncRef); ok {
-					k := ir.ShortKey(fr.Key)
-					if fileMutatingAPIs[k] {
-						sites = append(sites, site{ir.ShortKey(fn.Key), k})
-					}
-					if fr.Key == sysPath+".WriteFile" {
-						sites = append(sites, site{ir.ShortKey(fn.Key), "sys.WriteFile"})
-					}
+	seenSite := map[site]bool{}
+	scanOne := func(owner, body *ir.Func) {
+		ir.WalkFunc(body, func(t ir.Term) bool {
+			if fr, ok := t.(*ir.FuncRef); ok {
+				k := ir.ShortKey(fr.Key)
+				if fileMutatingAPIs[k] && !seenSite[site{ir.ShortKey(owner.Key), k}] {
+					seenSite[site{ir.ShortKey(owner.Key), k}] = true
+					sites = append(sites, site{ir.ShortKey(owner.Key), k})
 				}
-				return true
-			})
-		}
+				if fr.Key == sysPath+".WriteFile" && !seenSite[site{ir.ShortKey(owner.Key), "sys.WriteFile"}] {
+					seenSite[site{ir.ShortKey(owner.Key), "sys.WriteFile"}] = true
+					sites = append(sites, site{ir.ShortKey(owner.Key), "sys.WriteFile"})
+				}
+			}
+			return true
+		})
 	}
-	scan(f.Prog)
-	scan(sysProg)
+	// a helper added since the review is attributed to the reviewed functions that use it (its body is part of
+	// their normal forms, where C16.b reads what is written)
+	for _, at := range f.Attributed() {
+		scanOne(at.Owner, at.Body)
+	}
+	for _, fn := range sysProg.Funcs {
+		scanOne(fn, fn)
+	}
 	allowed := map[site]bool{
 		{"sys.WriteFile", "os.WriteFile"}:                              true,
 		{ir.ShortKey(f.Path + ".transpileOne"), "sys.WriteFile"}:       true,
